@@ -1112,3 +1112,77 @@ def family_calls(F, fn, pred):
         for c in f.calls_to(pred):
             out.append((f, c, p))
     return out
+
+
+def arg_named(F, call, name, index=None):
+    """Operand of `call` bound to the callee parameter called `name` (audited name); falls back to a position when the
+    callee is not a workspace function.  A private function's parameter ORDER is not part of any contract."""
+    callee = F.fns.get(call.cid)
+    if callee is not None:
+        for i in range(len(call.args)):
+            if callee.names.get(i + 1) == name:
+                return call.args[i]
+    if index is not None and index < len(call.args):
+        return call.args[index]
+    return None
+
+
+def _strip_ok_preserving(e):
+    while e[0] == "call" and e[1].endswith(OK_PRESERVING) and e[2]:
+        e = e[2][0]
+    return e
+
+
+def returns_call_result(fn, call):
+    """The function's result is (possibly an error-mapped form of) the value of `call` on some return path."""
+    r = Prov(fn).local(0)
+    alts = r[1] if r[0] == "phi" else [r]
+    for a in alts:
+        a = _strip_ok_preserving(a)
+        if a[0] == "call" and a[3] is call:
+            return True
+    return False
+
+
+def each_entry_checked(F, fn, inner_suffix):
+    """`fn` applies `inner` to every element of an iteration and propagates its first error, in either idiom:
+    `for x in it { inner(x)?; }`  or  `it.try_for_each(|x| inner(x))` (result returned or `?`-propagated).
+    Returns (ok, description)."""
+    cs = fn.calls_to(inner_suffix)
+    if len(cs) == 1:
+        ok = err_propagates(fn, cs[0]) and not [g for g in guards_of(fn, cs[0].bb) if g[1] is not None]
+        return ok, "loop body calls %s with ?" % inner_suffix
+    if cs:
+        return False, "%d direct calls" % len(cs)
+    hits = []
+    for cl in [f for fid, f in F.fns.items() if fid.startswith(fn.id + "::{closure#")]:
+        for c in cl.calls_to(inner_suffix):
+            hits.append((cl, c))
+    if len(hits) != 1:
+        return False, "%d calls in closures" % len(hits)
+    cl, c = hits[0]
+    if not (returns_call_result(cl, c) or err_propagates(cl, c)) or [g for g in guards_of(cl, c.bb) if g[1] is not None]:
+        return False, "closure does not return the check's result unconditionally"
+    drivers = [d for d in fn.calls if d.path.endswith(("Iterator::try_for_each", "::try_for_each")) and
+               any(a.get("const", {}).get("fn", {}).get("id") == cl.id for a in d.args) or
+               (d.path.endswith(("Iterator::try_for_each", "::try_for_each")) and _passes_closure(fn, d, cl))]
+    if len(drivers) != 1:
+        return False, "closure is not driven by exactly one try_for_each"
+    d = drivers[0]
+    if not (returns_call_result(fn, d) or err_propagates(fn, d)):
+        return False, "try_for_each result is dropped"
+    return True, "try_for_each(closure calling %s), result propagated" % inner_suffix
+
+
+def _passes_closure(fn, call, cl):
+    p = Prov(fn)
+    for a in call.args:
+        e = p.operand(a)
+        if any(x[0] == "closure" and x[1] == cl.id for x in walk(e)):
+            return True
+    return False
+
+
+def inlined_calls(e, suffix):
+    """Call nodes named `suffix` anywhere in an expression, including inside inlined helper bodies."""
+    return [x for x in walk(e) if x[0] == "call" and facts_suffix(x[1], suffix)]
